@@ -18,9 +18,10 @@ OUTCOMES = ['SUCCESS', 'FAILURE', 'MISSING', 'NOT_A_TEST']
 class Codes:
     '''==-classes of label values / names as integers (ints are themselves)'''
 
-    def __init__(self):
+    def __init__(self, strings=()):
         self.keys = ['_test_name', '_result']
-        self.vals = []
+        # strings are numbered in their sorted order so that the model can sort rows as Python does
+        self.vals = sorted(set(strings))
 
     def key(self, k):
         if k not in self.keys:
@@ -186,7 +187,15 @@ def run_impl(ctx, case, steps):
     from valjean.gavroche.diagnostics import stats
     from valjean.fingerprint import fingerprint
     task_results, TestResult = make_objects(case)
-    codes = Codes()
+    strings = set()
+    for tname, tres in task_results:
+        strings.add(tname)
+        for it in tres.get('result', ()):
+            if isinstance(it, TestResult):
+                strings.add(it.test.name)
+                strings.add('fp:' + fingerprint(it.test))
+                strings.update(v for v in it.test.labels.values() if isinstance(v, str))
+    codes = Codes(strings)
     nontrivial = False
 
     # ---- tasks by status
@@ -262,7 +271,7 @@ def run_impl(ctx, case, steps):
                      + clist([f'({cz(codes.val(n))}, ' + ('None' if f is None else
                                                           f'Some {cz(codes.val("fp:" + f))}') + ')'
                               for n, f in lst]) + ')' for oc, lst in classify.items()])
-        steps.append((case, 'tests', f'(ZTests {ztests} {cls} {cb(verdict)})'))
+        steps.append((case, 'tests', f'(ZTests {ztests} {cls} {cb(verdict)})', (ztests, cls, cb(verdict))))
         nontrivial = nontrivial or len(classify) > 1
 
     # ---- by labels
@@ -284,11 +293,11 @@ def run_impl(ctx, case, steps):
             name = type(exc).__name__
             if name == 'TestStatsTestsByLabelsException' and not set(by_labels) <= known:
                 ctx.count('by_labels_absent_label')
-                steps.append((case, 'bylabels', f'(ZByLabels {ztests} {zbl} (Raise 0%nat))'))
+                steps.append((case, 'bylabels', f'(ZByLabels {ztests} {zbl} (Raise 0%nat))', (zbl, '(Raise 0%nat)')))
             else:
                 ctx.oracle_failure(f'statistics by labels {by_labels} raise {name} :: {case}', case,
                                    key='bylabels-raises-' + name)
-                steps.append((case, 'bylabels', f'(ZByLabels {ztests} {zbl} (Raise 9%nat))'))
+                steps.append((case, 'bylabels', f'(ZByLabels {ztests} {zbl} (Raise 9%nat))', (zbl, '(Raise 9%nat)')))
             continue
         if not set(by_labels) <= known:
             ctx.oracle_failure(f'label of {by_labels} absent from every test but no exception :: {case}',
@@ -328,11 +337,118 @@ def run_impl(ctx, case, steps):
                       + f' {cn(r["OK"])} {cn(r["KO"])} {cn(r["total"])})' for r in res.classify])
         out = (f'(Ok ({rows}, {cn(res.n_labels)}, {clist([cb(o) for o in oracles])}, {cb(bool(res))}, '
                f'{cn(res.nb_missing_labels())}))')
-        steps.append((case, 'bylabels', f'(ZByLabels {ztests} {zbl} {out})'))
+        steps.append((case, 'bylabels', f'(ZByLabels {ztests} {zbl} {out})', (zbl, out)))
         nontrivial = nontrivial or len(got) > 1
         if missing:
             ctx.count('by_labels_with_missing')
     return nontrivial
+
+
+# ---------------------------------------------------------------------------
+# small-scope exhaustive stream
+
+def exh_collections(max_tasks, max_total, junk_total):
+    '''all collections of <= max_tasks tasks, each without a "result" key or with <= 2 results,
+    <= max_total results in total; a result = verdict x label a in (absent, p, q) x label b in (absent, p, q);
+    plus, for the collections with <= junk_total results, one non-test item at every position'''
+    import itertools
+    results = [(v, la, lb) for v in (True, False) for la in (None, 'p', 'q') for lb in (None, 'p', 'q')]
+
+    def shapes(ntasks, budget):
+        if ntasks == 0:
+            yield ()
+            return
+        for n in (None, 0, 1, 2):
+            if (n or 0) <= budget:
+                for rest in shapes(ntasks - 1, budget - (n or 0)):
+                    yield (n,) + rest
+
+    for ntasks in range(max_tasks + 1):
+        for shape in shapes(ntasks, max_total):
+            total = sum(n or 0 for n in shape)
+            for combo in itertools.product(results, repeat=total):
+                tasks, k = [], 0
+                for t, n in enumerate(shape):
+                    if n is None:
+                        tasks.append([f't{t}', 'DONE', None])
+                        continue
+                    items = []
+                    for _ in range(n):
+                        verdict, la, lb = combo[k]
+                        labels = [[key, val] for key, val in (('a', la), ('b', lb)) if val is not None]
+                        items.append(['fake', verdict, f'r{k % 2}', labels])
+                        k += 1
+                    tasks.append([f't{t}', 'DONE', items])
+                yield tasks
+                if total <= junk_total:
+                    for t, task in enumerate(tasks):
+                        if task[2] is None:
+                            continue
+                        for pos in range(len(task[2]) + 1):
+                            variant = [list(x) for x in tasks]
+                            variant[t][2] = task[2][:pos] + [['junk', 'str']] + task[2][pos:]
+                            yield variant
+
+
+def exh_selections(maxlen, keys):
+    import itertools
+    for n in range(1, maxlen + 1):
+        for sel in itertools.permutations(keys, n):
+            yield list(sel)
+
+
+def run_exhaustive(ctx, shards):
+    quick = ctx.tier == 'quick'
+    max_tasks, max_total, junk_total = (2, 2, 1) if quick else (3, 2, 1)
+    selections = list(exh_selections(2, ['a', 'b'])) if quick else \
+        list(exh_selections(3, ['a', 'b', '_result']))
+    groups = []
+    ncoll = 0
+    for tasks in exh_collections(max_tasks, max_total, junk_total):
+        ncoll += 1
+        case = {'exhaustive': True, 'tasks': tasks, 'by_labels': selections}
+        steps = []
+        run_impl(ctx, case, steps)
+        tests = [st for st in steps if st[1] == 'tests']
+        if not tests:
+            continue
+        ztests, cls, verdict = tests[0][3]
+        sels = clist([f'({st[3][0]}, {st[3][1]})' for st in steps if st[1] == 'bylabels'])
+        groups.append((case, f'({ztests}, {cls}, {verdict}, {sels})'))
+    # every sequence of <= 3 task statuses for the task summary
+    import itertools
+    tsteps = []
+    nstat = 0
+    for n in range(4):
+        for seq in itertools.product(STATUSES, repeat=n):
+            nstat += 1
+            case = {'exhaustive': True, 'tasks': [[f't{k}', st, None] for k, st in enumerate(seq)], 'by_labels': []}
+            steps = []
+            run_impl(ctx, case, steps)
+            tsteps += [st for st in steps if st[1] == 'tasks']
+    size = 160
+    for k in range(0, len(groups), size):
+        chunk = groups[k:k + size]
+        shards.append(('exh', chunk,
+                       'Definition cases : list (list (Z * option (list zitem18)) * list (nat * list zentry) * bool\n'
+                       '   * list (list Z * res (list (row pv) * nat * list bool * bool * nat))) :=\n '
+                       + clist([g[1] for g in chunk]).replace('; ([(', ';\n ([(')
+                       + '.\nEval vm_compute in bad_indices (map check_exh cases).'))
+    shards.append(('exh', [(st[0], st[2]) for st in tsteps],
+                   'Definition cases : list zcase :=\n ' + clist([st[2] for st in tsteps]).replace('; (Z', ';\n (Z')
+                   + '.\nEval vm_compute in bad_indices (map check_case cases).'))
+    ctx.count('exhaustive_collections', ncoll)
+    ctx.count('exhaustive_status_sequences', nstat)
+    ctx.extra['exhaustive'] = True
+    ctx.extra['exhaustive_bound'] = (
+        f'all collections of <= {max_tasks} tasks, each without a "result" key or with <= 2 results, <= {max_total} '
+        f'results in total, a result = verdict (ok, ko) x label a (absent, p, q) x label b (absent, p, q), plus one '
+        f'non-test item at every position of every collection with <= {junk_total} result: {ncoll} collections, '
+        f'each with the test summary and ALL {len(selections)} label selections of length 1..'
+        f'{2 if quick else 3} over {"a, b" if quick else "a, b, _result"}; all {nstat} sequences of <= 3 task '
+        f'statuses for the task summary; every evaluation checked by brute-force counting and by the model')
+    ctx.rule += '; EXHAUSTIVE: ' + ctx.extra['exhaustive_bound']
+    return ncoll
 
 
 def run(ctx):
@@ -344,7 +460,7 @@ def run(ctx):
                 'non-trivial = some summary has at least two classes / rows; distinct by case content')
     rng = ctx.rng
     cases = [json.loads(json.dumps(c)) for c in CORPUS]
-    nrand = 700 if ctx.tier == 'quick' else 8000
+    nrand = 550 if ctx.tier == "quick" else 8000
     cases += [gen_case(rng) for _ in range(nrand)]
     steps = []
     for case in cases:
@@ -354,14 +470,22 @@ def run(ctx):
     shards = []
     for k in range(0, len(steps), shard_size):
         chunk = steps[k:k + shard_size]
-        shards.append('Definition cases : list zcase :=\n ' + clist([s[2] for s in chunk]).replace('; (Z', ';\n (Z')
-                      + '.\nEval vm_compute in bad_indices (map check_case cases).')
-    outs = common.coq_eval(ctx.pid, IMPORTS, shards)
-    for k, out in enumerate(outs):
+        shards.append(('rand', chunk,
+                       'Definition cases : list zcase :=\n ' + clist([s[2] for s in chunk]).replace('; (Z', ';\n (Z')
+                       + '.\nEval vm_compute in bad_indices (map check_case cases).'))
+    evaluations = ctx.evaluations
+    run_exhaustive(ctx, shards)
+    outs = common.coq_eval(ctx.pid, IMPORTS, [sh[2] for sh in shards])
+    for (tag, chunk, _), out in zip(shards, outs):
         for i in common.parse_nat_list(out):
-            step = steps[k * shard_size + i]
-            ctx.mismatch(f'{step[1]} statistics: model and implementation differ on {step[2][:400]}',
-                         {'case': step[0], 'kind': step[1], 'coq': step[2]})
+            step = chunk[i]
+            if tag == 'rand':
+                ctx.mismatch(f'{step[1]} statistics: model and implementation differ on {step[2][:400]}',
+                             {'case': step[0], 'kind': step[1], 'coq': step[2]})
+            else:
+                ctx.mismatch(f'exhaustive stream: model and implementation differ on {step[1][:400]}',
+                             {'case': step[0], 'coq': step[1]})
+    ctx.extra['exhaustive_model_cases'] = sum(len(sh[1]) for sh in shards if sh[0] == 'exh')
     ctx.extra['model_steps_compared'] = len(steps)
     ctx.assumptions = ['brute-force counting over Python lists (== on label tuples) is the ground truth',
                        'label values are mutually comparable per label (the implementation sorts the rows)',
